@@ -68,6 +68,7 @@ type eng struct {
 	globals  map[*ssa.Global]*absint.Cell
 	kindName map[int64]string
 	post     map[string]bool // functions with code after the parser call
+	lexMemo  map[string]string // literal -> token kind the lexer gives it
 }
 
 func (e *eng) hooks(in *absint.Interp, record func(g *G)) {
